@@ -2203,6 +2203,13 @@ PIP_Solution_Node::row_sign(const Row& x,
       sign = NEGATIVE;
     }
   }
+  if (sign == NEGATIVE && x.get(0) == 0) {
+    // All the coefficients are non-positive, but the constant term is zero:
+    // the row evaluates to zero when all of its parameters are zero
+    // (parameters are non-negative), hence it is negative only if the
+    // context says so: let the caller check it.
+    return MIXED;
+  }
   return sign;
 }
 
@@ -2986,7 +2993,9 @@ PIP_Solution_Node::solve(const PIP_Problem& pip,
             switch (sign_i) {
             case ZERO:
               if (product > 0) {
-                sign_i = NEGATIVE;
+                // The row is negative for all parameter values only if
+                // its constant term is negative (see row_sign()).
+                sign_i = (j.index() == 0) ? NEGATIVE : MIXED;
               }
               else if (product < 0) {
                 sign_i = POSITIVE;
